@@ -87,6 +87,12 @@ func (h *Sources) Undo() {
 		return
 	}
 
+	// The current state of the line might not be saved yet (typed characters are
+	// not): save it before the first undo, so that redo can come back to it.
+	if line.pos == 0 && line.items[len(line.items)-1].line != string(*h.line) {
+		line.items = append(line.items, undoItem{line: string(*h.line), pos: h.cursor.Pos()})
+	}
+
 	var undo undoItem
 
 	// When undoing, we loop through preceding undo items
